@@ -103,6 +103,35 @@ def make_array(np, carrier, vals):
     raise ValueError(carrier)
 
 
+def observe_complex(fx, np, fmt, modes, re_vals, im_vals, route, props, scalar=True):
+    """complex input: each component is quantized on its own (C01).  Returns two store rows (real parts, imaginary parts)."""
+    s, w, f = fmt
+    out = []
+    base = {'k': 'store', 'p': list(props), 's': bool(s), 'w': w, 'f': f, 'r': modes[0], 'o': modes[1], 'route': route, 'agg': True,
+            'sorted': False, 'rb': []}
+    try:
+        if scalar:
+            codes_r, codes_i, fo, fu, fi = [], [], False, False, False
+            for a, b in zip(re_vals, im_vals):
+                x, sel = do_write(fx, np, route, complex(float(a), float(b)), fmt, modes, 1)
+                v = np.asarray(sel.val).ravel()[0]
+                codes_r.append(int(v.real)); codes_i.append(int(v.imag))
+                if float(v.real) != int(v.real) or float(v.imag) != int(v.imag):
+                    raise ValueError('non-integral complex code')
+            # flags of a complex write cover both components: judged per row as "at least", so they are not logged here
+            for nm, vals, cs in (('re', re_vals, codes_r), ('im', im_vals, codes_i)):
+                out.append(dict(base, carrier='complex.' + nm, v=[wdy(v) for v in vals], c=[wint(c) for c in cs], fo=[False], fu=[False], fi=[False]))
+        else:
+            arr = np.array([complex(float(a), float(b)) for a, b in zip(re_vals, im_vals)])
+            x, sel = do_write(fx, np, route, arr, fmt, modes, len(re_vals))
+            vv = np.asarray(sel.val).ravel()
+            for nm, vals, cs in (('re', re_vals, [int(c.real) for c in vv]), ('im', im_vals, [int(c.imag) for c in vv])):
+                out.append(dict(base, carrier='ndarray-complex.' + nm, v=[wdy(v) for v in vals], c=[wint(c) for c in cs], fo=[False], fu=[False], fi=[False]))
+        return out
+    except Exception as ex:
+        return [dict(base, k='error', carrier='complex', err=type(ex).__name__, msg=str(ex)[:200], v=[wdy(v) for v in re_vals[:2]])]
+
+
 def _snapshot(container):
     import copy
     return copy.deepcopy(container)
